@@ -39,7 +39,27 @@ CMP = [("eq", operator.eq), ("ne", operator.ne), ("lt", operator.lt), ("le", ope
 def run_arith(case, ctx):
     a, b, fam = case["a"], case["b"], case["fam"]
     n = len(a)
-    if fam == "date_int" or n == 0:
+    if n == 0:
+        return
+    if fam == "date_int":
+        # dates + days: a None on either side gives None at that position (the right operand is an int scalar or an int vector)
+        if all(x is None for x in a):
+            return
+        va = S.Vector(list(a))
+        forms = [("scalar", lambda: va + case["sb"], [case["sb"]] * n)]
+        if not all(y is None for y in b):
+            forms.append(("vector", lambda: va + S.Vector(list(b)), b))
+        for form, call, ys in forms:
+            ctx.ev()
+            try:
+                res = call()
+            except Exception as e:  # noqa: BLE001
+                return ctx.fail(f"arith/date-plus-days/{form}/raised/{type(e).__name__}", f"{a} + {ys}: {e}")
+            got, want = [x is None for x in res], [x is None or y is None for x, y in zip(a, ys)]
+            if got != want:
+                return ctx.fail(f"arith/date-plus-days/{form}/none-positions", f"{a} + {ys}: None at {got}, expected at {want}")
+        if None in a or None in b:
+            ctx.nontrivial()
         return
     va, vb = S.Vector(list(a)), S.Vector(list(b))
     for name, op in c05._ops_for(fam):
